@@ -284,6 +284,17 @@ func readToken(src string, i *int, eofok bool) (string, error) {
 	return src[q:p], nil
 }
 
+// isKeyword reports whether tv is one of the keywords of tag, as a whole word:
+// a fragment of a keyword ("str", "8", "nary") is not a type name
+func isKeyword(tag Tag, tv string) bool {
+	for _, kw := range strings.Fields(keywordTab[tag]) {
+		if kw == tv {
+			return true
+		}
+	}
+	return false
+}
+
 func mkMistyped(pos int, src string, tv string, tag Tag, vt reflect.Type) SyntaxError {
 	if tag != T_struct {
 		return ESyntax(pos, src, fmt.Sprintf("type mismatch, %s expected, got %s", keywordTab[tag], tv))
@@ -377,7 +388,7 @@ func doParseType(vt reflect.Type, def string, i *int, allowPtrs bool) (*Type, er
 	if def != "" {
 		if tv, et := readToken(def, i, false); et != nil {
 			return nil, et
-		} else if !strings.Contains(keywordTab[tag], tv) {
+		} else if !isKeyword(tag, tv) {
 			if !isident0(tv[0]) {
 				return nil, mkMistyped(*i-len(tv), def, tv, tag, vt)
 			} else if ok, ex := doMatchStruct(vt, def, i, &tv); ex != nil {
